@@ -17,6 +17,7 @@ import (
 	"crypto/rand"
 	"encoding/binary"
 	"fmt"
+	"io"
 	"sort"
 	"strings"
 	"sync"
@@ -47,7 +48,7 @@ func TestMain(m *testing.M) {
 		"second-handle-same-key", "subtle-constructor", "writer-repeat-on-primitive", "interleaved-keys", "full-sweep", "edge-position",
 		"field-delivered-by-short-reads", "ecdh-recompute-x25519", "ecdh-recompute-nist", "p521-masked-byte-flipped", "mlkem-consecutive",
 		"xwing-both-halves", "ecies-dem-iv", "ecies-compressed-point", "composite-two-draws", "surplus-bytes-not-judged", "keygen-symmetric-copy",
-		"keygen-asymmetric-copy", "keygen-asymmetric-fn", "keygen-nonrandomized-type", "pooled-key", "jwt-signature",
+		"keygen-asymmetric-copy", "keygen-asymmetric-fn", "keygen-nonrandomized-type", "pooled-key", "jwt-signature", "id-spread-batch", "keyid-spread-judged",
 		"kms-envelope-fresh-dek", "manager-delete", "manager-setprimary", "manager-disable-enable", "add-after-delete", "mldsa-prehash-signer", "output-verified")
 	if core.Thorough() {
 		core.DeclareProbes("rsa-primes-located-in-stream", "slhdsa-keygen-seeds-copied", "cost2-produce")
@@ -78,6 +79,12 @@ func TestEntropy(t *testing.T) {
 // shortening itself instead of using simrng.ShortMax. A 4-byte read is passed
 // through whole while a key-ID script is queued.
 
+// req is one logical request served from the main stream.
+type req struct {
+	off uint64
+	n   int
+}
+
 type shortReader struct {
 	g     *simrng.RNG
 	max   int
@@ -87,9 +94,13 @@ type shortReader struct {
 	// stdlib's rejection sampling loops once). The overridden stream bytes are
 	// kept by offset, so re-runs of the call and the harness's view of the
 	// issued bytes see the same values.
-	armed  bool
-	forced map[uint64]byte // stream offset → XOR mask (composes with the byte-flip perturbation of re-runs)
-	nForce int
+	// pending: bytes still owed to the request whose first part was served short;
+	// the next request of exactly that size is its continuation, not a new draw.
+	pending int
+	reqs    []req // logical stream requests of the current call (continuations, 1-byte coins and scripted reads excluded)
+	armed   bool
+	forced  map[uint64]byte // stream offset → XOR mask (composes with the byte-flip perturbation of re-runs)
+	nForce  int
 }
 
 // rejectPattern: leading bytes that, after the stdlib's key[1] ^= 0x42, read
@@ -112,8 +123,11 @@ func rejectPattern(n int) []byte {
 
 func (s *shortReader) Read(p []byte) (int, error) {
 	off := s.g.Offset(0)
-	scripted := len(p) == 4 && s.g.ScriptLen() > 0
-	if s.armed && !scripted {
+	cont := s.pending > 0 && len(p) == s.pending
+	// simrng hands a queued key-ID script to ANY 4-byte read: only a genuine
+	// 4-byte request may see it, never a 4-byte piece of a larger request.
+	scripted := len(p) == 4 && s.g.ScriptLen() > 0 && !cont
+	if s.armed && !scripted && !cont {
 		if pat := rejectPattern(len(p)); pat != nil {
 			s.armed = false
 			s.nForce++
@@ -122,7 +136,15 @@ func (s *shortReader) Read(p []byte) (int, error) {
 			}
 		}
 	}
-	n, err := s.read(p)
+	if !cont && !scripted && len(p) > 1 {
+		s.reqs = append(s.reqs, req{off, len(p)})
+	}
+	n, err := s.read(p, scripted)
+	if cont || n < len(p) {
+		s.pending = len(p) - n
+	} else {
+		s.pending = 0
+	}
 	if len(s.forced) > 0 && n > 1 && !scripted {
 		for i := 0; i < n; i++ {
 			if m, ok := s.forced[off+uint64(i)]; ok {
@@ -133,24 +155,39 @@ func (s *shortReader) Read(p []byte) (int, error) {
 	return n, err
 }
 
-func (s *shortReader) read(p []byte) (int, error) {
+func (s *shortReader) read(p []byte, scripted bool) (int, error) {
 	n := len(p)
-	if s.max > 0 && n > s.max && n > 2 && !(n == 4 && s.g.ScriptLen() > 0) {
-		m := s.max
+	if scripted || n <= 2 {
+		return s.g.Read(p)
+	}
+	m := n
+	if s.max > 0 && n > s.max {
+		m = s.max
 		if m < 2 {
 			m = 2
 		}
-		if n-m == 1 {
-			if m > 2 {
-				m--
-			} else {
-				m = n
+	}
+	if s.g.ScriptLen() > 0 && m == 4 {
+		m = 3 // a 4-byte piece (or a 4-byte continuation) would be served from the script
+		if n == 4 {
+			m = 2
+		}
+	}
+	if n-m == 1 {
+		if m > 2 && !(s.g.ScriptLen() > 0 && m-1 == 4) {
+			m--
+		} else {
+			m = n
+			if s.g.ScriptLen() > 0 && m == 4 {
+				m = 2
 			}
 		}
-		if m < n {
+	}
+	if m < n {
+		if s.max > 0 {
 			s.fired++
-			return s.g.Read(p[:m])
 		}
+		return s.g.Read(p[:m])
 	}
 	return s.g.Read(p)
 }
@@ -290,6 +327,12 @@ type world struct {
 	faults  map[string]bool
 	calls   int
 	reruns  int
+
+	statsOn  bool      // this run's IDs count towards the process-wide spread statistics
+	base     io.Reader // crypto/rand.Reader outside the run
+	gseed    uint64    // seed of the library-internal source for this run
+	seedCtr  uint64
+	internal map[string]int // loc.field → times confirmed as library-internal randomness in this run
 }
 
 func (w *world) catch(where string) {
@@ -309,6 +352,7 @@ type win struct {
 	scripted   int    // scripted 4-byte reads served during the call
 	short      bool   // a short read was served during the call
 	forced     bool   // the forced-rejection pattern was planted into a read of this call
+	reqs       []req  // logical stream requests of the call, offsets relative to start
 }
 
 // bracket runs one call of tink and returns its consumption window.
@@ -317,6 +361,7 @@ func (w *world) bracket(where string, f func()) win {
 	g.Mark++
 	g.Log = g.Log[:0]
 	start, sl, ob, sf, nf := g.Offset(0), g.ScriptServed, g.OneByteReads, w.sr.fired, w.sr.nForce
+	w.sr.reqs = w.sr.reqs[:0]
 	func() {
 		defer w.catch(where)
 		f()
@@ -346,6 +391,11 @@ func (w *world) bracket(where string, f func()) win {
 		}
 	}
 	wn.forced = w.sr.nForce > nf
+	for _, q := range w.sr.reqs {
+		if q.off >= start && q.off < end {
+			wn.reqs = append(wn.reqs, req{q.off - start, q.n})
+		}
+	}
 	w.sr.armed = false
 	if g.OneByteReads > ob {
 		// whether the stdlib's MaybeReadByte coin fires is decided by a runtime select: counted, but kept
@@ -368,10 +418,13 @@ func (w *world) armRejection() {
 }
 
 // rerun executes f on the identical stream with byte j of the window flipped.
-func (w *world) rerun(wn win, j int, where string, f func()) {
+func (w *world) rerun(wn win, j int, where string, f func()) { w.rerunXor(wn, j, 0xff, where, f) }
+
+// rerunXor executes f on the identical stream with byte j of the window XORed with x.
+func (w *world) rerunXor(wn win, j int, x byte, where string, f func()) {
 	g := w.g
 	g.SetOffset(0, wn.start)
-	g.Perturb(0, wn.start+uint64(j), 0xff)
+	g.Perturb(0, wn.start+uint64(j), x)
 	g.LogOn = false
 	func() {
 		defer w.catch(where + " (re-run)")
@@ -381,6 +434,116 @@ func (w *world) rerun(wn win, j int, where string, f func()) {
 	g.Unperturb()
 	g.SetOffset(0, wn.end)
 	w.reruns++
+}
+
+// replay executes f again on the identical, unperturbed seam stream.
+func (w *world) replay(wn win, where string, f func()) {
+	g := w.g
+	g.SetOffset(0, wn.start)
+	g.LogOn = false
+	func() {
+		defer w.catch(where + " (replay)")
+		f()
+	}()
+	g.LogOn = true
+	g.SetOffset(0, wn.end)
+	w.reruns++
+}
+
+// reseed restarts the library-internal randomness source (the one crypto/mlkem,
+// cipher.NewGCMWithRandomNonce, ... draw from) with a seed; the seam reader
+// stays installed.
+func (w *world) reseed(seed uint64) {
+	cur := rand.Reader
+	rand.Reader = w.base
+	cryptotest.SetGlobalRandom(outerT, seed)
+	rand.Reader = cur
+}
+
+func (w *world) nextSeed() uint64 {
+	w.seedCtr++
+	return w.gseed ^ (w.seedCtr * 0x9e3779b97f4a7c15) ^ 0x5851f42d4c957f2d
+}
+
+// internalSeeds: differently seeded re-runs made before a field is accepted as
+// library-internal randomness. A truly random byte stays constant over the
+// n+3 samples with probability 2^-8(n+2): "some byte position constant" is a
+// safe sign of a partly fixed field.
+const internalSeeds = 16
+
+// fromInternal decides whether a random field the seam cannot explain is
+// fresh randomness of the seeded library-internal source ("everything tink
+// draws goes through crypto/rand.Reader" is the harness's assumption, not
+// C20's). redo re-executes the very same call on the restored seam stream and
+// returns the field (nil if the call failed). Accepted only if
+//  1. the field is a function of (seam stream, library seed): same seed ⇒ same field;
+//  2. a different seed gives a different field — every time, and for a field
+//     that is a copy of random bytes no byte position stays constant;
+//  3. two consecutive calls under one seed differ.
+func (w *world) fromInternal(wn win, loc, field string, orig []byte, perByte bool, redo func() []byte) (bool, string) {
+	key := loc + "." + field
+	again := func() []byte {
+		var v []byte
+		w.replay(wn, key, func() { v = append([]byte(nil), redo()...) })
+		return v
+	}
+	if len(orig) == 0 {
+		return false, "empty field"
+	}
+	s0 := w.nextSeed()
+	w.reseed(s0)
+	a1 := again()
+	b1 := again()
+	if len(a1) == 0 || len(b1) == 0 {
+		return false, "the call fails when repeated"
+	}
+	if bytes.Equal(a1, b1) {
+		return false, "two consecutive calls under one library seed give the same " + field
+	}
+	w.reseed(s0)
+	a2 := again()
+	if !bytes.Equal(a1, a2) {
+		return false, "the " + field + " is a function neither of the bytes issued through crypto/rand.Reader nor of the seeded library-internal source (counter, clock or cached state?)"
+	}
+	samples := [][]byte{orig, a1, b1}
+	n := internalSeeds
+	if w.internal[key] >= 2 {
+		n = 1 // confirmed twice in this run already: one differently seeded re-run and the no-repeat sets
+	}
+	for i := 0; i < n; i++ {
+		w.reseed(w.nextSeed())
+		x := again()
+		if len(x) == 0 {
+			return false, "the call fails when repeated"
+		}
+		for _, y := range samples {
+			if bytes.Equal(x, y) {
+				return false, "the " + field + " does not change with the seed of the library-internal source"
+			}
+		}
+		samples = append(samples, x)
+	}
+	if perByte && n == internalSeeds {
+		for pos := range orig {
+			same := true
+			for _, y := range samples[1:] {
+				if len(y) != len(orig) || y[pos] != orig[pos] {
+					same = false
+					break
+				}
+			}
+			if same {
+				return false, fmt.Sprintf("byte %d of the %s is %02x under %d different seeds", pos, field, orig[pos], len(samples))
+			}
+		}
+	}
+	w.internal[key]++
+	w.oracles["seed"] = true
+	w.r.Probe("field-from-library-internal-randomness:" + key)
+	if w.r.Tracing() {
+		w.r.Logf("  %s: not issued through crypto/rand.Reader; accepted as library-internal randomness after %d re-runs", key, len(samples)+1)
+	}
+	return true, ""
 }
 
 // fnSpec describes one sensitivity check.
@@ -535,6 +698,17 @@ func idIs(id uint32, b []byte) bool {
 	return binary.BigEndian.Uint32(b) == id || binary.LittleEndian.Uint32(b) == id
 }
 
+// findID returns the offset of four issued bytes whose 32-bit value (either
+// byte order) is id, preferring the start of the window; -1 if there are none.
+func findID(id uint32, data []byte) int {
+	for off := 0; off+4 <= len(data); off++ {
+		if idIs(id, data[off:off+4]) {
+			return off
+		}
+	}
+	return -1
+}
+
 func bswap(v uint32) uint32 { return v<<24 | (v&0xff00)<<8 | (v>>8)&0xff00 | v>>24 }
 
 func entryLoc(e catalog.Entry) string { return string(e.Class) + "/" + e.KeyType }
@@ -595,12 +769,33 @@ func (w *world) genKey(e catalog.Entry) key.Key {
 		return nil
 	}
 	T := len(wn.data)
-	if T < 4 || !idIs(id, wn.data[:4]) {
-		r.Violation("C20/keyid-not-from-rng", fmt.Sprintf("fresh manager returned key ID %08x; the call issued %s", id, core.Hex(wn.data, 16)))
+	// the ID is the 32-bit value of some four issued bytes (either byte order) or a
+	// function of the call's first request; the key material must come from the
+	// other issued bytes
+	idOff, idEnd, idOK := w.explainID(wn, id, func() (uint32, bool) {
+		id2, k2, err2 := newKeyVia(e)
+		return id2, err2 == nil && k2 != nil
+	})
+	if !idOK {
 		return nil
 	}
-	w.oracles["id"] = true
-	material := wn.data[4:]
+	idLen := idEnd - idOff
+	idCopy := idLen == 4 && idIs(id, wn.data[idOff:idEnd])
+	w.noteID(id)
+	material := without(wn.data, idOff, idEnd)
+	keyField := func() []byte {
+		_, k2, err2 := newKeyVia(e)
+		if err2 != nil || k2 == nil {
+			return nil
+		}
+		var sec []secretField
+		secretsOf(k2, "", 0, &sec)
+		var c []byte
+		for _, s := range sec {
+			c = append(c, s.data...)
+		}
+		return c
+	}
 	var secrets []secretField
 	secretsOf(k, "", 0, &secrets)
 	var cat []byte
@@ -612,17 +807,24 @@ func (w *world) genKey(e catalog.Entry) key.Key {
 	if !e.Randomized {
 		r.Probe("keygen-nonrandomized-type")
 	}
+	keyInternal := false // the key material was accepted as library-internal randomness
 	mandatory := symmetricClass(e.Class) || e.KeyType == "mldsa" || e.KeyType == "jwtmldsa" || e.KeyType == "slhdsa"
 	if mandatory {
 		if len(secrets) == 0 {
 			w.t.Fatalf("harness: no secret accessor found on %T", k)
 		}
 		if !allCopied {
-			r.Violation("C20/key-not-from-rng:"+loc, fmt.Sprintf("%s: key material %s is not made of disjoint ranges of the %d bytes issued during key generation", e.Name, core.Hex(cat, 40), len(material)))
-			return nil
+			if good, why := w.fromInternal(wn, loc, "key", cat, true, keyField); !good {
+				r.Violation("C20/key-not-from-rng:"+loc, fmt.Sprintf("%s: key material %s is not made of disjoint ranges of the %d bytes issued during key generation; nor is it library-internal randomness: %s", e.Name, core.Hex(cat, 40), len(material), why))
+				return nil
+			}
+			keyInternal = true
+		} else {
+			w.oracles["keycopy"] = true
 		}
-		w.oracles["keycopy"] = true
-		if symmetricClass(e.Class) {
+		if keyInternal {
+			// nothing more to say about seam bytes
+		} else if symmetricClass(e.Class) {
 			r.Probe("keygen-symmetric-copy")
 		} else {
 			r.Probe("keygen-asymmetric-copy")
@@ -637,16 +839,27 @@ func (w *world) genKey(e catalog.Entry) key.Key {
 		need := keygenNeed(e)
 		if bits := rsaModulusBits(e); bits != 0 || e.RSABased() {
 			w.rsaKeygen(e, loc, wn, id, k, secrets)
+		} else if T < idLen+need {
+			// the key did not (fully) come through the seam
+			if !keyInternal {
+				if good, why := w.fromInternal(wn, loc, "key", cat, false, keyField); !good {
+					r.Violation("C20/short-consumption:"+loc+".keygen", fmt.Sprintf("%s: key generation consumed %d random bytes, the scheme needs %d; nor is the key library-internal randomness: %s", e.Name, T, idLen+need, why))
+					return nil
+				}
+			}
 		} else {
-			head := 4
+			head := idLen
+			if idOff != 0 {
+				head = 0
+			}
 			if e.KeyType == "compositemldsa" {
 				head += 32 // the ML-DSA seed is drawn before the classical key
 			}
-			if wn.forced && T > 4+need {
+			if wn.forced && T > idLen+need {
 				r.Fault("forced-scalar-rejection")
 				w.faults["rejection"] = true
 			}
-			w.sensitivity(wn, fnSpec{loc: loc + ".keygen", need: randNeed{4 + need, true}, cost: e.Cost, probe: "keygen-asymmetric-fn", head: head,
+			w.sensitivity(wn, fnSpec{loc: loc + ".keygen", need: randNeed{idLen + need, true}, cost: e.Cost, probe: "keygen-asymmetric-fn", head: head,
 				changed: func(j int) bool {
 					var id2 uint32
 					var k2 key.Key
@@ -655,8 +868,10 @@ func (w *world) genKey(e catalog.Entry) key.Key {
 					if err2 != nil || k2 == nil {
 						return true
 					}
-					if j < 4 {
-						return id2 != id
+					if j >= idOff && j < idEnd {
+						// a copied ID changes with each of its bytes; an ID that is a function of a
+						// longer draw was judged bit by bit in explainID
+						return !idCopy || id2 != id
 					}
 					return !k.Equal(k2)
 				}})
@@ -678,7 +893,7 @@ func (w *world) genKey(e catalog.Entry) key.Key {
 // must each be such a masked block issued during this call, and flipping a
 // byte inside either accepted block must change the key.
 func (w *world) rsaKeygen(e catalog.Entry, loc string, wn win, id uint32, k key.Key, secrets []secretField) {
-	material := wn.data[4:]
+	material := wn.data
 	var primes [][]byte
 	for _, s := range secrets {
 		if strings.HasSuffix(s.name, "P") || strings.HasSuffix(s.name, "Q") {
@@ -711,7 +926,7 @@ func (w *world) rsaKeygen(e catalog.Entry, loc string, wn win, id uint32, k key.
 	w.r.Probe("keygen-asymmetric-copy")
 	w.r.Probe("rsa-primes-located-in-stream")
 	for i, off := range offs {
-		j := 4 + off + rapid.IntRange(0, len(primes[i])-1).Draw(w.t, "rsaPos")
+		j := off + rapid.IntRange(0, len(primes[i])-1).Draw(w.t, "rsaPos")
 		var k2 key.Key
 		var err2 error
 		w.rerun(wn, j, loc+".keygen", func() { _, k2, err2 = newKeyVia(e) })
@@ -739,11 +954,14 @@ func (w *world) wrap(ks *keyState) *keyset.Handle {
 		w.t.Fatalf("harness: cannot wrap %s into a handle: %v", ks.e.Name, err)
 	}
 	if _, has := ks.k.IDRequirement(); !has {
-		if len(wn.data) < 4 || !idIs(id, wn.data[:4]) {
-			w.r.Violation("C20/keyid-not-from-rng", fmt.Sprintf("AddKey of a key without ID requirement returned %08x; the call issued %s", id, core.Hex(wn.data, 16)))
+		if _, _, ok := w.explainID(wn, id, func() (uint32, bool) {
+			id2, err2 := keyset.NewManager().AddKeyWithOpts(ks.k, internalapi.Token{}, keyset.AsPrimary())
+			return id2, err2 == nil
+		}); !ok {
+			return h
 		}
+		w.noteID(id)
 		w.r.Probe("raw-key-id-draw")
-		w.oracles["id"] = true
 	}
 	return h
 }
@@ -833,10 +1051,17 @@ func (w *world) mgrAdd() {
 		r.Violation("C20/call-failed:keyset.Manager.Add", fmt.Sprintf("%s: %v", e.Name, err))
 		return
 	}
+	// The scripted collisions only reach an implementation that draws IDs with
+	// 4-byte reads; values it did not consume are dropped (never a failure).
+	consumed := vals
+	if wn.scripted < len(vals) {
+		consumed = vals[:wn.scripted]
+		r.Count("scripted-id-not-consumed", int64(len(vals)-wn.scripted))
+	}
 	// what a manager that re-draws until the ID is unused must return, reading
 	// its four bytes big-endian (what tink does) or little-endian (equally fine)
 	walk := func(le bool) (exp uint32, ok bool, collisions, goneCollisions, off int) {
-		for _, v := range vals {
+		for _, v := range consumed {
 			if le {
 				v = bswap(v)
 			}
@@ -882,15 +1107,30 @@ func (w *world) mgrAdd() {
 		r.Violation("C20/keyid-not-redrawn", fmt.Sprintf("manager handed out key ID %08x a second time (IDs in use: %d, scripted draws %08x)", id, len(w.used), vals))
 		return
 	}
+	idFrom, idTo := 0, off
 	if !ok || id != exp {
-		r.Violation("C20/keyid-not-from-rng", fmt.Sprintf("manager returned key ID %08x; the first unused value among its draws (scripted %08x, then stream %s) is %08x", id, vals, core.Hex(wn.data, 12), exp))
-		return
+		if len(consumed) > 0 {
+			r.Violation("C20/keyid-not-from-rng", fmt.Sprintf("manager returned key ID %08x; the first unused value among its draws (scripted %08x, then stream %s) is %08x", id, consumed, core.Hex(wn.data, 12), exp))
+			return
+		}
+		// not a copy of four issued bytes: a function of the first request?
+		var fine bool
+		idFrom, idTo, fine = w.explainID(wn, id, func() (uint32, bool) {
+			id2, k2, err2 := newKeyVia(e) // the same ID draw on a scratch manager
+			return id2, err2 == nil && k2 != nil
+		})
+		if !fine {
+			return
+		}
+		off = idTo
 	}
 	if collisions > 0 {
 		r.Probe("redraw-on-collision")
 	}
 	if off == 0 {
 		r.Probe("scripted-fresh-id")
+	} else {
+		w.noteID(id) // drawn from the stream, not taken from the harness's script
 	}
 	w.oracles["id"] = true
 	w.used[id] = true
@@ -921,9 +1161,24 @@ func (w *world) mgrAdd() {
 	for _, s := range secrets {
 		cat = append(cat, s.data...)
 	}
-	if !copiedDisjoint(wn.data[off:], secrets) {
-		r.Violation("C20/key-not-from-rng:"+entryLoc(e), fmt.Sprintf("%s added to a manager: key material is not made of disjoint ranges of the bytes issued during the call", e.Name))
-		return
+	if !copiedDisjoint(without(wn.data, idFrom, idTo), secrets) {
+		good, why := w.fromInternal(wn, entryLoc(e), "key", cat, true, func() []byte {
+			_, k2, err2 := newKeyVia(e) // the same key-creation path on a scratch manager
+			if err2 != nil || k2 == nil {
+				return nil
+			}
+			var sec []secretField
+			secretsOf(k2, "", 0, &sec)
+			var c []byte
+			for _, s := range sec {
+				c = append(c, s.data...)
+			}
+			return c
+		})
+		if !good {
+			r.Violation("C20/key-not-from-rng:"+entryLoc(e), fmt.Sprintf("%s added to a manager: key material is not made of disjoint ranges of the bytes issued during the call; nor is it library-internal randomness: %s", e.Name, why))
+			return
+		}
 	}
 	if len(cat) > 0 {
 		if w.keyMat[string(cat)] {
@@ -932,6 +1187,52 @@ func (w *world) mgrAdd() {
 		w.keyMat[string(cat)] = true
 		w.oracles["keycopy"] = true
 	}
+}
+
+// idSpread: one manager hands out 512 IDs in a row. They must be pairwise
+// distinct, and every bit must be set in 256 ± 4·√512 of them (8σ; see noteID
+// for the bound) — a self-contained, replayable necessary condition for
+// "spread uniformly over the 32-bit range" that does not depend on how the
+// manager turns random bytes into an ID.
+func (w *world) idSpread() {
+	const n = idSpreadFirstN
+	e := cheapSym[rapid.IntRange(0, len(cheapSym)-1).Draw(w.t, "spreadEntry")]
+	m := keyset.NewManager()
+	ids := make([]uint32, 0, n)
+	var err error
+	wn := w.bracket("keyset.Manager.Add×512", func() {
+		for i := 0; i < n && err == nil; i++ {
+			var id uint32
+			if id, err = m.AddNewKeyFromParameters(e.Params); err == nil {
+				ids = append(ids, id)
+			}
+		}
+	})
+	if err != nil {
+		w.r.Violation("C20/call-failed:keyset.Manager.Add", fmt.Sprintf("%s: %v", e.Name, err))
+		return
+	}
+	seen := make(map[uint32]bool, n)
+	var ones [32]int
+	for _, id := range ids {
+		if seen[id] {
+			w.r.Violation("C20/keyid-not-redrawn", fmt.Sprintf("one manager handed out key ID %08x twice among %d consecutive IDs", id, n))
+			return
+		}
+		seen[id] = true
+		for b := 0; b < 32; b++ {
+			if id>>b&1 == 1 {
+				ones[b]++
+			}
+		}
+		w.noteID(id)
+	}
+	if why := spreadFault(n, ones[:], nil); why != "" {
+		w.r.Violation("C20/keyid-not-uniform", fmt.Sprintf("%d consecutive key IDs of one manager (%d random bytes consumed): %s", n, len(wn.data), why))
+		return
+	}
+	w.oracles["idspread"] = true
+	w.r.Probe("id-spread-batch")
 }
 
 // mgrOp drives the other operations of the persistent manager; none of them
@@ -1109,24 +1410,53 @@ func (w *world) produce(ki int) {
 		r.Probe("mldsa-prehash-signer")
 	}
 	T := len(wn.data)
-	short := func(field string, need int) bool {
-		if T < need {
-			r.Violation("C20/short-consumption:"+loc+"."+field, fmt.Sprintf("%s: the call consumed %d random bytes, the %s needs %d", ks.e.Name, T, field, need))
-			return true
+	// field re-extracted from a replay of the call (nil if it failed or is too short)
+	redoField := func(extract func(o []byte) []byte) func() []byte {
+		return func() []byte {
+			call()
+			if err != nil {
+				err = nil
+				return nil
+			}
+			return extract(out)
 		}
-		return false
 	}
-	copied := func(field string, v []byte, hay []byte) int {
-		idx := bytes.Index(hay, v)
-		if idx < 0 || len(v) == 0 {
-			r.Violation("C20/provenance:"+loc+"."+field, fmt.Sprintf("%s: %s %s is not a contiguous range of the bytes issued during this call [%d,%d) = %s", ks.e.Name, field, core.Hex(v, 40), wn.start, wn.end, core.Hex(wn.data, 48)))
-			return -1
+	// explain: a field that is a copy of random bytes is either a contiguous
+	// range of hay (bytes issued through the seam during this call; idx ≥ 0) or
+	// fresh library-internal randomness (idx = -1, ok). Otherwise the violation
+	// the seam oracle would have raised is raised: short consumption if the
+	// call drew fewer than shortNeed bytes, provenance if not.
+	explain := func(field string, v, hay []byte, shortField string, shortNeed int, extract func(o []byte) []byte) (idx int, ok bool) {
+		if len(v) > 0 {
+			if idx = bytes.Index(hay, v); idx >= 0 {
+				w.oracles["copy"] = true
+				if wn.short {
+					r.Probe("field-delivered-by-short-reads")
+				}
+				return idx, true
+			}
 		}
-		w.oracles["copy"] = true
-		if wn.short {
-			r.Probe("field-delivered-by-short-reads")
+		key := "C20/provenance:" + loc + "." + field
+		detail := fmt.Sprintf("%s: %s %s is not a contiguous range of the bytes issued during this call [%d,%d) = %s", ks.e.Name, field, core.Hex(v, 40), wn.start, wn.end, core.Hex(wn.data, 48))
+		if T < shortNeed {
+			key = "C20/short-consumption:" + loc + "." + shortField
+			detail = fmt.Sprintf("%s: the call consumed %d random bytes, the %s needs %d", ks.e.Name, T, shortField, shortNeed)
 		}
-		return idx
+		good, why := w.fromInternal(wn, loc, field, v, true, redoField(extract))
+		if !good {
+			r.Violation(key, detail+"; nor is it library-internal randomness: "+why)
+			return -1, false
+		}
+		return -1, true
+	}
+	// explainFn: the same for an output that is a function of the draw and got
+	// fewer seam bytes than its scheme needs.
+	explainFn := func(field string, v []byte, need int, extract func(o []byte) []byte) bool {
+		good, why := w.fromInternal(wn, loc, field, v, false, redoField(extract))
+		if !good {
+			r.Violation("C20/short-consumption:"+loc+"."+field, fmt.Sprintf("%s: the call consumed %d random bytes, the %s needs %d; nor is it library-internal randomness: %s", ks.e.Name, T, field, need, why))
+		}
+		return good
 	}
 	rerunOut := func(j int) []byte {
 		w.rerun(wn, j, loc, call)
@@ -1144,7 +1474,7 @@ func (w *world) produce(ki int) {
 			t.Fatalf("harness: no IV layout for %T", ks.e.Params)
 		}
 		if p.kind == "envelope" {
-			w.checkEnvelope(ks, p, loc, wn, orig, n)
+			w.checkEnvelope(ks, p, loc, wn, orig, n, msg, aad)
 			return
 		}
 		if len(orig) < p.prefixLen+n {
@@ -1152,7 +1482,12 @@ func (w *world) produce(ki int) {
 			return
 		}
 		iv := orig[p.prefixLen : p.prefixLen+n]
-		if short("iv", n) || copied("iv", iv, wn.data) < 0 {
+		if _, ok := explain("iv", iv, wn.data, "iv", n, func(o []byte) []byte {
+			if len(o) < p.prefixLen+n {
+				return nil
+			}
+			return o[p.prefixLen : p.prefixLen+n]
+		}); !ok {
 			return
 		}
 		w.noRepeat(ks, "iv", iv)
@@ -1167,16 +1502,29 @@ func (w *world) produce(ki int) {
 			return
 		}
 		salt, np := orig[1:1+k], orig[1+k:1+k+streamNoncePrefixLen]
-		if short("header", k+streamNoncePrefixLen) {
-			return
+		hdr := func(from, to int) func(o []byte) []byte {
+			return func(o []byte) []byte {
+				if len(o) < to {
+					return nil
+				}
+				return o[from:to]
+			}
 		}
-		a := copied("salt", salt, wn.data)
-		if a < 0 {
+		a, ok := explain("salt", salt, wn.data, "header", k+streamNoncePrefixLen, hdr(1, 1+k))
+		if !ok {
 			return
 		}
 		// the nonce prefix is a separate draw: a range disjoint from the salt's
-		if bytes.Index(wn.data[:a], np) < 0 && bytes.Index(wn.data[a+k:], np) < 0 {
-			copied("noncePrefix", np, nil)
+		rest := wn.data
+		if a >= 0 {
+			rest = nil
+			if bytes.Index(wn.data[:a], np) >= 0 {
+				rest = wn.data[:a]
+			} else if bytes.Index(wn.data[a+k:], np) >= 0 {
+				rest = wn.data[a+k:]
+			}
+		}
+		if _, ok := explain("noncePrefix", np, rest, "header", k+streamNoncePrefixLen, hdr(1+k, 1+k+streamNoncePrefixLen)); !ok {
 			return
 		}
 		w.noRepeat(ks, "salt", salt)
@@ -1205,28 +1553,57 @@ func (w *world) produce(ki int) {
 			return
 		}
 		enc := orig[pl : pl+kem.encLen]
-		if short("ephemeral", kem.randLen+kem.demIV) {
-			return
+		part := func(from, to int) func(o []byte) []byte {
+			return func(o []byte) []byte {
+				if len(o) < to {
+					return nil
+				}
+				return o[from:to]
+			}
 		}
 		w.noRepeat(ks, "enc", enc)
 		if kem.mlkem > 0 {
-			// randomness drawn inside crypto/mlkem: differential oracle only
+			// randomness drawn inside crypto/mlkem: differential oracle only — the full
+			// seed-differential check on the first calls of a key, no-repeat on all
 			w.noRepeat(ks, "mlkem-ciphertext", enc[:kem.mlkem])
 			w.oracles["seed"] = true
 			if len(ks.seen["mlkem-ciphertext"]) > 1 {
 				r.Probe("mlkem-consecutive")
 			}
+			if len(ks.seen["mlkem-ciphertext"]) <= 2 {
+				if good, why := w.fromInternal(wn, loc, "mlkem-ciphertext", enc[:kem.mlkem], false, redoField(part(pl, pl+kem.mlkem))); !good {
+					r.Violation("C20/repeat:"+ks.loc+".mlkem-ciphertext", fmt.Sprintf("%s: the ML-KEM encapsulation is not fresh library-internal randomness: %s", ks.e.Name, why))
+					return
+				}
+			}
 		}
+		// per-field accounting: the DEM IV may come through the seam or from the
+		// library-internal source, independently of the ephemeral key
+		seamNeed := kem.randLen
 		if kem.demIV > 0 {
 			iv := orig[pl+kem.encLen : pl+kem.encLen+kem.demIV]
 			from := kem.randLen
-			if copied("dem-iv", iv, wn.data[from:]) < 0 {
+			if from > T {
+				from = T
+			}
+			idx, ok := explain("dem-iv", iv, wn.data[from:], "ephemeral", kem.randLen+kem.demIV, part(pl+kem.encLen, pl+kem.encLen+kem.demIV))
+			if !ok {
 				return
+			}
+			if idx >= 0 {
+				seamNeed += kem.demIV
 			}
 			w.noRepeat(ks, "dem-iv", iv)
 			r.Probe("ecies-dem-iv")
 		}
-		if kem.curve != nil {
+		demSeam := seamNeed - kem.randLen // DEM IV bytes that came through the seam
+		if kem.curve != nil && T < seamNeed {
+			// the ephemeral key did not (fully) come through the seam
+			got := enc[kem.ecOff : kem.ecOff+kem.ecLen]
+			if !explainFn("ephemeral", got, seamNeed, part(pl+kem.ecOff, pl+kem.ecOff+kem.ecLen)) {
+				return
+			}
+		} else if kem.curve != nil {
 			got := enc[kem.ecOff : kem.ecOff+kem.ecLen]
 			want, rejected, perr := expectedPoint(kem, wn.data)
 			// A different public value than crypto/ecdh derives from the issued bytes is
@@ -1241,9 +1618,9 @@ func (w *world) produce(ki int) {
 					w.faults["rejection"] = true
 				}
 			}
-			kemBytes := T - kem.demIV
+			kemBytes := T - demSeam
 			skip := ks.fnSkip()
-			w.sensitivity(wn, fnSpec{loc: loc, need: randNeed{kem.randLen + kem.demIV, true}, cost: ks.e.Cost, skip: skip && !mismatch, all: mismatch,
+			w.sensitivity(wn, fnSpec{loc: loc, need: randNeed{seamNeed, true}, cost: ks.e.Cost, skip: skip && !mismatch, all: mismatch,
 				changed: func(j int) bool {
 					o := rerunOut(j)
 					if len(o) != len(orig) {
@@ -1281,12 +1658,12 @@ func (w *world) produce(ki int) {
 		if !randomized {
 			t.Fatalf("harness: %s is listed as randomized but has no randomness length", ks.e.Name)
 		}
-		if short("rnd", need.min) {
-			return
-		}
-		if T == 0 {
-			r.Violation("C20/short-consumption:"+loc+".rnd", fmt.Sprintf("%s: a randomized signature consumed no randomness", ks.e.Name))
-			return
+		viaSeam := T >= need.min && T > 0
+		if !viaSeam {
+			// fewer seam bytes than the scheme needs: the signing randomness must then be library-internal
+			if !explainFn("rnd", orig, need.min, func(o []byte) []byte { return o }) {
+				return
+			}
 		}
 		mk := fmt.Sprintf("%s/%d", p.kind, mi)
 		for _, prev := range ks.sigs[mk] {
@@ -1305,8 +1682,10 @@ func (w *world) produce(ki int) {
 		if ks.e.KeyType == "compositemldsa" && len(wn.data) > 32 {
 			r.Probe("composite-two-draws")
 		}
-		w.sensitivity(wn, fnSpec{loc: loc, need: need, cost: ks.e.Cost, skip: ks.fnSkip(),
-			changed: func(j int) bool { return !bytes.Equal(rerunOut(j), orig) }})
+		if viaSeam {
+			w.sensitivity(wn, fnSpec{loc: loc, need: need, cost: ks.e.Cost, skip: ks.fnSkip(),
+				changed: func(j int) bool { return !bytes.Equal(rerunOut(j), orig) }})
+		}
 	default:
 		t.Fatalf("harness: class %s has no producing oracle", ks.e.Class)
 	}
@@ -1316,7 +1695,7 @@ func (w *world) produce(ki int) {
 // of the data. The KEK IV and the DEK IV are copies of bytes issued during the
 // call, the DEK (seen by opening the first part with the KEK) carries key
 // bytes issued during the call, and no DEK is used twice.
-func (w *world) checkEnvelope(ks *keyState, p *prim, loc string, wn win, out []byte, kekIV int) {
+func (w *world) checkEnvelope(ks *keyState, p *prim, loc string, wn win, out []byte, kekIV int, msg, aad []byte) {
 	r := w.r
 	bad := func(field, why string) {
 		r.Violation("C20/provenance:"+loc+"."+field, fmt.Sprintf("%s: %s; issued during the call [%d,%d) = %s", ks.e.Name, why, wn.start, wn.end, core.Hex(wn.data, 48)))
@@ -1331,19 +1710,51 @@ func (w *world) checkEnvelope(ks *keyState, p *prim, loc string, wn win, out []b
 		return
 	}
 	encDEK, payload := out[4:4+L], out[4+L:]
-	if len(wn.data) < kekIV+p.dekIV+16 {
-		r.Violation("C20/short-consumption:"+loc, fmt.Sprintf("%s: the call consumed %d random bytes; a fresh DEK and two IVs need at least %d", ks.e.Name, len(wn.data), kekIV+p.dekIV+16))
-		return
-	}
 	iv1 := encDEK[p.prefixLen : p.prefixLen+kekIV]
 	iv2 := payload[:p.dekIV]
+	// each IV is either a range of the issued bytes (disjoint from the other's) or library-internal randomness
+	redo := func(which int) func() []byte {
+		return func() []byte {
+			o, err := p.produce(msg, aad)
+			if err != nil || len(o) < 4 {
+				return nil
+			}
+			l := int(binary.BigEndian.Uint32(o[:4]))
+			if l <= 0 || 4+l > len(o) || l < p.prefixLen+kekIV || len(o)-4-l < p.dekIV {
+				return nil
+			}
+			if which == 1 {
+				return o[4+p.prefixLen : 4+p.prefixLen+kekIV]
+			}
+			return o[4+l : 4+l+p.dekIV]
+		}
+	}
+	seamNeed := 16
 	a := bytes.Index(wn.data, iv1)
 	if a < 0 {
-		bad("kek-iv", "KEK IV "+core.Hex(iv1, 24)+" is not a range of the issued bytes")
-		return
+		if good, why := w.fromInternal(wn, loc, "kek-iv", iv1, true, redo(1)); !good {
+			bad("kek-iv", "KEK IV "+core.Hex(iv1, 24)+" is not a range of the issued bytes, nor library-internal randomness: "+why)
+			return
+		}
+	} else {
+		seamNeed += kekIV
 	}
-	if bytes.Index(wn.data[:a], iv2) < 0 && bytes.Index(wn.data[a+kekIV:], iv2) < 0 {
-		bad("dek-iv", "DEK IV "+core.Hex(iv2, 24)+" is not a range of the issued bytes disjoint from the KEK IV")
+	found2 := false
+	if a < 0 {
+		found2 = bytes.Index(wn.data, iv2) >= 0
+	} else {
+		found2 = bytes.Index(wn.data[:a], iv2) >= 0 || bytes.Index(wn.data[a+kekIV:], iv2) >= 0
+	}
+	if !found2 {
+		if good, why := w.fromInternal(wn, loc, "dek-iv", iv2, true, redo(2)); !good {
+			bad("dek-iv", "DEK IV "+core.Hex(iv2, 24)+" is not a range of the issued bytes disjoint from the KEK IV, nor library-internal randomness: "+why)
+			return
+		}
+	} else {
+		seamNeed += p.dekIV
+	}
+	if len(wn.data) < seamNeed {
+		r.Violation("C20/short-consumption:"+loc, fmt.Sprintf("%s: the call consumed %d random bytes; a fresh DEK and the IVs drawn through crypto/rand.Reader need at least %d", ks.e.Name, len(wn.data), seamNeed))
 		return
 	}
 	var dek []byte
@@ -1380,18 +1791,24 @@ func run(t *rapid.T) {
 	}
 	buildLists()
 	r := core.Begin(t)
-	g := simrng.New(rapid.Uint64().Draw(t, "rngSeed"))
+	rngSeed := rapid.Uint64().Draw(t, "rngSeed")
+	g := simrng.New(rngSeed)
 	g.LogOn = true
 	// stdlib-internal randomness (ML-KEM encapsulation, Miller-Rabin bases) becomes a function of the run, too
-	cryptotest.SetGlobalRandom(outerT, rapid.Uint64().Draw(t, "globalSeed"))
+	gseed := rapid.Uint64().Draw(t, "globalSeed")
+	cryptotest.SetGlobalRandom(outerT, gseed)
 	sr := &shortReader{g: g, forced: map[uint64]byte{}, max: rapid.SampledFrom([]int{0, 0, 0, 7, 5, 3, 2, 4, 6, 1}).Draw(t, "shortMax")}
 	old := rand.Reader
 	rand.Reader = sr
 	defer func() { rand.Reader = old }()
 
 	w := &world{r: r, t: t, g: g, sr: sr, mgr: keyset.NewManager(), used: map[uint32]bool{}, mgrGone: map[uint32]bool{}, mgrOff: map[uint32]bool{}, keyMat: map[string]bool{},
-		oracles: map[string]bool{}, faults: map[string]bool{}, lastKey: -1}
+		oracles: map[string]bool{}, faults: map[string]bool{}, lastKey: -1, base: old, gseed: gseed, internal: map[string]int{}}
 	r.Logf("short reads: max %d", sr.max)
+	w.idStatsStart(rngSeed)
+	if rapid.IntRange(0, 31).Draw(t, "idSpreadBatch") == 31 {
+		w.idSpread()
+	}
 
 	nKeys := rapid.IntRange(1, 4).Draw(t, "nKeys")
 	for i := 0; i < nKeys; i++ {
